@@ -20,8 +20,8 @@ use crate::{
         format::format_part,
         offset::{add_offset_to_dn, remove_offset_from_dn, try_remove_offset_from_dn},
         parse::{
-            parse_format_string, parse_offset, parse_part, ParseUnit, ParsedDate, ParsedTime,
-            Period,
+            parse_format_string, parse_offset, parse_part, remove_part, ParseUnit, ParsedDate,
+            ParsedTime, Period,
         },
         time::{
             convert::{
@@ -348,13 +348,15 @@ impl DateTime {
         for part in parts {
             // Escaped apostrophes
             if part.starts_with('\u{0000}') {
-                string.replace_range(0..part.len(), "");
+                remove_part(part.chars().count(), &mut string)?;
                 continue;
             }
 
             // Escaped parts
             if part.starts_with('\'') {
-                string.replace_range(0..part.len() - if part.ends_with('\'') { 2 } else { 1 }, "");
+                let text = part.strip_prefix('\'').unwrap_or(&part);
+                let text = text.strip_suffix('\'').unwrap_or(text);
+                remove_part(text.chars().count(), &mut string)?;
                 continue;
             }
 
